@@ -333,8 +333,11 @@ def pattern_builder(builder: OpsetPatternBuilder):
     global _pattern_builder
     prev_builder = _pattern_builder
     _pattern_builder = builder
-    yield
-    _pattern_builder = prev_builder
+    try:
+        yield
+    finally:
+        # Restore the previous builder even if the pattern constructor raised.
+        _pattern_builder = prev_builder
 
 
 class ValuePattern:
